@@ -1097,7 +1097,6 @@ func c09ScanLimitToken(c *Ctx) {
 	}
 }
 
-
 // fieldRead: v reads field idx of a struct value / pointee base.
 func fieldRead(v ssa.Value) (ssa.Value, int, bool) {
 	switch x := stripConv(v).(type) {
